@@ -295,7 +295,17 @@ impl<'a, 'b> Adv<'a, 'b> {
             Some((d, pr)) => self.assemble_qc(d, *pr).unwrap_or_else(QC::genesis),
             None => QC::genesis(),
         };
-        let byz = self.byz.clone();
+        // certificates signed by the Byzantine authorities only: below the quorum, or padded up to
+        // the quorum weight by repeating them
+        let mut byz = self.byz.clone();
+        if self.t.chance(1, 2) {
+            let mut k = 0;
+            while self.w.stake_of(&self.byz) * ((byz.len() / self.byz.len()) as u64) < self.w.quorum() + 1 && k < 64 {
+                byz.extend(self.byz.clone());
+                k += 1;
+            }
+            self.stat("padded-certificate");
+        }
         let x0 = self.w.block(b1, r, qc, None, Vec::new());
         let fake0 = self.w.qc(&x0, &byz);
         let x1 = self.w.block(b2, r + 1, fake0, None, Vec::new());
